@@ -837,6 +837,9 @@ class Normalizer:
                 full = all(isinstance(z, Term) and z.op == "slice" and all(isinstance(q, Term) and q.op == "const" and q.args[0] is None for q in z.args) for z in idx.args[1:])
                 if full:
                     idx = idx.args[0]
+            # arange(n)[~isin(arange(n), b)]: the values of the range not contained in b, setdiff1d(arange(n), b)
+            if isinstance(base, Term) and base.op == "arange" and len(base.args) == 1 and isinstance(idx, Term) and idx.op == "invert" and isinstance(idx.args[0], Term) and idx.args[0].op == "isin" and idx.args[0].args[0] == base:
+                return self.nf(Term("setdiff1d", base, idx.args[0].args[1]))
             # selections in reversed order: x[::-1][m[::-1]] = x[flatnonzero(m)[::-1]] = x[m][::-1] (same along axis 1)
             REV = Term("slice", Term("const", None), Term("const", None), Term("const", Fraction(-1)))
             def _split_ax(i_):
@@ -941,6 +944,23 @@ class Normalizer:
             if isinstance(ui, Term) and ui.op == "tuple" and len(ui.args) == 2 and _term_full_slice(ui.args[0]) and ui.args[1] == vi and isinstance(vi, Term) and vi.op == "slice" and vi == Term("slice", Term("const", None), Term("const", None), Term("const", Fraction(-1))):
                 inner = Term(op, ub, vb)
                 return self.nf(Term("getitem", inner, ui if op == "svd_flip_u" else vi))
+        if op == "diagof" and len(a) == 1:
+            # the diagonal is linear; of a product of two matrices it is a sum of elementwise products:
+            # diag(P @ Q)_i = sum_j P_ij Q_ji ,  diag(A^T @ B)_j = sum_i A_ij B_ij
+            out = ZERO
+            for (s, chain), k in self.nf(a[0]):
+                coef = frozenset([((s, ()), k)])
+                if len(chain) == 2 and not any(x.op in ("dg", "eye", "zeros") for x in chain):
+                    A_, B_ = chain
+                    if A_.op == "t":
+                        pa, pb, ax = P_atom(A_.kids[0]), P_atom(B_), 0
+                    else:
+                        pa, pb, ax = P_atom(A_), P_atom(t_atom(B_, self.symmetric)), 1
+                    term = self.linear_reduce("sum", (None, ("axis", Term("const", Fraction(ax)))), inner=p_had(pa, pb))
+                else:
+                    term = P_atom(A("diagof", chain_atom(chain) if chain else A("one")))
+                out = p_add(out, p_had(coef, term))
+            return out
         if op == "sorted" and len(a) == 1:
             return self.nf(Term("sort", a[0]))  # the sorted values (as a list or as an array)
         if op == "where3" and len(a) == 3:
